@@ -13,16 +13,17 @@ import zlib
 
 from .pdfwriter import Name, Ref, Revision, Stream, build
 
-SEG = {"H": "H", "dec": "dec", "evil": "evil", "sub": "sub", "zz": "zz", "dd": "..", "d": ".", "e": "",
+SEG = {"res": "res", "cmap": "cmap",     # the basenames of the two resource directories (CMAP_PATH dir, <package>/cmap)
+       "H": "H", "dec": "dec", "evil": "evil", "sub": "sub", "zz": "zz", "dd": "..", "d": ".", "e": "",
        "nul": "ev\0il", "long": "x" * 300,
        "ndd": ".\0.",          # a dot-dot split by a NUL: ".." once the NULs are removed
        "n0": "\0"}             # nothing but a NUL: in front of a "/" it hides an absolute name
 
 # scratch tree shared by all CMap cases (relative to the scratch root)
 SIB = {"cmap": "res_evil", "image": "out_evil"}
-TREE_DIRS = ["res", "res/sub", "out", "out/sub", "dec", "res_evil", "out_evil"]
+TREE_DIRS = ["res", "res/sub", "out", "out/sub", "dec", "res_evil", "out_evil", "cmap"]
 TREE_PICKLES = ["res/evil.pickle.gz", "res/sub/evil.pickle.gz", "dec/evil.pickle.gz", "dec/H.pickle.gz",
-                "res_evil/evil.pickle.gz", "out_evil/evil.pickle.gz",
+                "res_evil/evil.pickle.gz", "out_evil/evil.pickle.gz", "cmap/evil.pickle.gz",
                 "res/to-unicode-Adobe-evil.pickle.gz"]
 
 
